@@ -34,6 +34,9 @@ type (
 	I1 interface{ MI1() }
 	// I2 is implemented by *T0..*T7.
 	I2 interface{ MI2() }
+	// VErr is an error type with a value receiver: a result of this type can never be nil, so dig takes it for an
+	// error on every call.  Outside the model: programs that use it are judged by the trace predicates only.
+	VErr struct{ Code int }
 	// I0x is a distinct interface type with exactly the method set of I0: each implements the other.
 	I0x interface{ MI0() }
 	// I3 embeds I0 and I2: it implements both and is implemented by *T0 and *T1.
@@ -67,6 +70,9 @@ type (
 
 func (ZI) MI0() {}
 
+// Error makes VErr an error.
+func (VErr) Error() string { return "value error" }
+
 func (*T0) MI0() {}
 func (*T1) MI0() {}
 func (NS0) MI0() {}
@@ -97,6 +103,7 @@ const (
 	IDI2     = 22
 	IDI3     = 23
 	IDI0x    = 24
+	IDVErr   = 25
 	IDInt    = 70
 
 	// FirstCompositeID is the lowest id a program may give to a composite type.
@@ -138,6 +145,7 @@ var byID = map[int]reflect.Type{
 	22: ifaceT((*I2)(nil)),
 	23: ifaceT((*I3)(nil)),
 	24: ifaceT((*I0x)(nil)),
+	25: reflect.TypeOf(VErr{}),
 
 	30: reflect.TypeOf([]*T0(nil)),
 	31: reflect.TypeOf([]*T1(nil)),
@@ -280,6 +288,7 @@ var expected = func() []TypeInfo {
 	add(22, "iface", -1, false, 22)
 	add(23, "iface", -1, false, 20, 22, 23, 24)
 	add(24, "iface", -1, false, 20, 24)
+	add(25, "struct", -1, true)
 	for n := 0; n < 8; n++ {
 		add(30+n, "slice", 10+n, false)
 	}
